@@ -219,10 +219,16 @@ class InternalCompiler(Compiler):
             return iret
 
         # 1. Compile the expression
-        eret = self.compile_expr(qc, expr.args[0])
+        operand = expr.args[0]
+        in_place = (
+            dest is None
+            and not isinstance(operand, Symbol)
+            and operand not in self.expqmap
+        )
+        eret = self.compile_expr(qc, operand)
 
-        # 2. If the expression is on an ancilla, perform the X updating the exp
-        if eret in qc.ancilla_lst:
+        # 2. If the expression is on a just computed ancilla, perform the X updating the exp
+        if in_place and eret in qc.ancilla_lst:
             qc.x(eret)
             self.expqmap[expr] = eret
             return eret
